@@ -7,6 +7,7 @@ pub mod c11;
 pub mod c12;
 pub mod c13;
 pub mod c14;
+pub mod c18;
 
 fn one(_: Tier) -> usize { 1 }
 
@@ -16,6 +17,7 @@ pub fn all() -> Vec<CheckDef> {
         CheckDef { id: "C12", shards: one, run: c12::run, replay: Some(c12::replay) },
         CheckDef { id: "C13", shards: one, run: c13::run, replay: Some(c13::replay) },
         CheckDef { id: "C14", shards: one, run: c14::run, replay: Some(c14::replay) },
+        CheckDef { id: "C18", shards: one, run: c18::run, replay: Some(c18::replay) },
     ]
 }
 
